@@ -107,6 +107,13 @@ namespace Parma_Polyhedra_Library {
 #define PPL_WEAK_NORETURN __attribute__((noreturn))
 #endif
 
+#ifdef BUGSENG_PPL_VERIF
+// Verification hook H1: let a test harness's replacement handlers return
+// for explicitly ignore-listed assertion sites (see /verif/DESIGN.md F11).
+#undef PPL_WEAK_NORETURN
+#define PPL_WEAK_NORETURN __attribute__((weak))
+#endif
+
 #ifdef PPL_DOXYGEN_INCLUDE_IMPLEMENTATION_DETAILS
 //! Helper function causing program termination by calling \c abort.
 #endif // defined(PPL_DOXYGEN_INCLUDE_IMPLEMENTATION_DETAILS)
